@@ -21,268 +21,7 @@ use super::spec::*;
 broadcast use {ax_r_of, ax_r_ext, ax_sqrt, lemma_sqrt_pos, lemma_sq_nonneg, lemma_rmul_nonneg, lemma_rdiv_nonneg, ax_nq_sign, ax_tq_sign, ax_exp_pos, ax_exp_ln};
 //@include prelude/base_code.rs
 
-// ---------------- utils.rs: compensated sum (in the ideal model the compensation term is always 0)
-//@item src/utils.rs struct KahanSum derive=Clone,Copy
-impl KahanSum {
-    pub closed spec fn val(self) -> real { self.sum.v() + self.compensation.v() }
-    pub closed spec fn wf(self) -> bool { self.compensation.v() == 0real }
-}
-//@freefn src/utils.rs kahan_add
-//@| ensures final(current_sum).v() - final(compensation).v() == old(current_sum).v() - old(compensation).v() + x.v(),
-//@|         final(compensation).v() == 0real,
-//@impl src/utils.rs impl<T: Float> KahanSum<T>
-//@fn new ret r
-//@| ensures r.wf(), r.val() == value.v(),
-//@fn value ret r
-//@| ensures r.v() == self.val(),
-//@endimpl
-//@impl src/utils.rs impl<T: Float> Default for KahanSum<T>
-//@fn default ret r
-//@| ensures r.wf(), r.val() == 0real,
-//@endimpl
-pub closed spec fn kahan_plus(k: KahanSum, x: real) -> KahanSum {
-    KahanSum { sum: r_of(k.sum.v() - k.compensation.v() + x), compensation: r_of(0real) }
-}
-//@impl src/utils.rs impl<T: Float> core::ops::AddAssign<T> for KahanSum<T>
-//@fn add_assign
-//@endimpl
-impl AddAssignSpecImpl<R> for KahanSum {
-    open spec fn obeys_add_assign_spec() -> bool { true }
-    open spec fn add_assign_req(self, rhs: R) -> bool { true }
-    open spec fn add_assign_spec(self, rhs: R) -> Self { kahan_plus(self, rhs.v()) }
-}
-//@impl src/utils.rs impl<T: Float> core::ops::AddAssign<Self> for KahanSum<T>
-//@fn add_assign
-//@endimpl
-impl AddAssignSpecImpl<KahanSum> for KahanSum {
-    open spec fn obeys_add_assign_spec() -> bool { true }
-    open spec fn add_assign_req(self, rhs: KahanSum) -> bool { true }
-    open spec fn add_assign_spec(self, rhs: KahanSum) -> Self { kahan_merge(self, rhs) }
-}
-pub closed spec fn kahan_merge(k: KahanSum, o: KahanSum) -> KahanSum { kahan_plus(kahan_plus(k, o.sum.v()), o.compensation.v()) }
-pub proof fn lemma_kahan_merge(k: KahanSum, o: KahanSum)
-    requires k.wf(), o.wf(),
-    ensures kahan_merge(k, o).wf(), kahan_merge(k, o).val() == k.val() + o.val(),
-{}
-pub proof fn lemma_kahan_plus(k: KahanSum, x: real)
-    requires k.wf(),
-    ensures kahan_plus(k, x).wf(), kahan_plus(k, x).val() == k.val() + x,
-{}
-
-// ---------------- mean.rs: Arithmetic
-//@item src/mean.rs struct Arithmetic derive=Clone,Copy
-impl Arithmetic {
-    pub closed spec fn wf(self) -> bool { self.sum.wf() && self.sum_sq.wf() }
-    pub closed spec fn s1(self) -> real { self.sum.val() }
-    pub closed spec fn s2(self) -> real { self.sum_sq.val() }
-    pub closed spec fn n(self) -> nat { self.count as nat }
-}
-//@impl src/mean.rs impl<F: Float> Default for Arithmetic<F>
-//@fn default ret r
-//@| ensures r.wf(), r.s1() == 0real, r.s2() == 0real, r.n() == 0,
-//@endimpl
-//@impl src/mean.rs impl<F: Float> Arithmetic<F>
-//@fn new ret r
-//@| ensures r.wf(), r.s1() == 0real, r.s2() == 0real, r.n() == 0,
-//@fn append ret r vis pub
-//@| requires old(self).wf(), old(self).n() < usize::MAX,
-//@| ensures r is Ok, final(self).wf(),
-//@|         final(self).s1() == old(self).s1() + x.v(),
-//@|         final(self).s2() == old(self).s2() + rmul(x.v(), x.v()),
-//@|         final(self).n() == old(self).n() + 1,
-//@fn sample_count ret r
-//@| ensures r as nat == self.n(),
-//@fn sample_mean ret r
-//@| requires self.wf(),
-//@| ensures r.v() == mean_of(self.s1(), self.n()),
-//@fn sample_variance ret r
-//@| requires self.wf(), self.n() >= 1,
-//@| ensures r.v() == var_of(self.s1(), self.s2(), self.n()),
-//@fn sample_std_dev ret r
-//@| requires self.wf(), self.n() >= 1,
-//@| ensures r.v() == sd_of(self.s1(), self.s2(), self.n()),
-//@fn sample_sem ret r
-//@| requires self.wf(), self.n() >= 1,
-//@| ensures r.v() == rdiv(sd_of(self.s1(), self.s2(), self.n()), sqrt_spec((self.n() - 1) as real)),
-//@fn ci_mean ret r
-//@| requires self.wf(), conf_valid(confidence),
-//@| ensures self.n() < 2 ==> r is Err && r->Err_0 == CIError::TooFewSamples(self.n() as usize),
-//@|         self.n() >= 2 ==> r is Ok,
-//@|         r is Ok ==> ci_by_kind(confidence, mean_ci_lo(confidence, self.s1(), self.s2(), self.n()), mean_ci_hi(confidence, self.s1(), self.s2(), self.n()), r->Ok_0),
-//@fn add ret r
-//@| requires self.wf(), rhs.wf(), self.n() + rhs.n() <= usize::MAX,
-//@| ensures r == arith_merge(self, rhs), r.wf(), r.s1() == self.s1() + rhs.s1(), r.s2() == self.s2() + rhs.s2(), r.n() == self.n() + rhs.n(),
-//@endimpl
-pub closed spec fn arith_merge(a: Arithmetic, b: Arithmetic) -> Arithmetic {
-    Arithmetic { sum: kahan_merge(a.sum, b.sum), sum_sq: kahan_merge(a.sum_sq, b.sum_sq), count: (a.count + b.count) as usize }
-}
-// the merged state's view is the component-wise sum of the views (C09)
-pub broadcast proof fn lemma_arith_merge(a: Arithmetic, b: Arithmetic)
-    requires a.wf(), b.wf(), a.n() + b.n() <= usize::MAX,
-    ensures (#[trigger] arith_merge(a, b)).wf(), arith_merge(a, b).s1() == a.s1() + b.s1(), arith_merge(a, b).s2() == a.s2() + b.s2(), arith_merge(a, b).n() == a.n() + b.n(),
-{ lemma_kahan_merge(a.sum, b.sum); lemma_kahan_merge(a.sum_sq, b.sum_sq); }
-
-// trait StatisticsOps default methods, instantiated at Self = Arithmetic (`self.append` is the inherent append the
-// macro-generated trait impl delegates to; that delegation is decided by the Kani harness c01_statistics_ops_delegates_*)
-//@impl src/mean.rs pub trait StatisticsOps<F: Float>: Default => impl Arithmetic
-//@fn extend ret r vis pub
-//@| requires old(self).wf(), old(self).n() + data.len() < usize::MAX,
-//@| ensures r is Ok, final(self).wf(), final(self).n() == old(self).n() + data.len(),
-//@|         final(self).s1() == old(self).s1() + sum_to(data@, data.len() as int),
-//@|         final(self).s2() == old(self).s2() + sumsq_to(data@, data.len() as int),
-//@loop 0| invariant self.wf(), self.n() == old(self).n() + it.index@, old(self).n() + data.len() < usize::MAX,
-//@loop 0|     self.s1() == old(self).s1() + sum_to(data@, it.index@ as int),
-//@loop 0|     self.s2() == old(self).s2() + sumsq_to(data@, it.index@ as int),
-//@fn from_iter ret r vis pub
-//@| requires data.len() < usize::MAX,
-//@| ensures r is Ok, r->Ok_0.wf(), r->Ok_0.n() == data.len(), r->Ok_0.s1() == sum_to(data@, data.len() as int), r->Ok_0.s2() == sumsq_to(data@, data.len() as int),
-//@endimpl
-//@impl src/mean.rs impl<F: Float> Arithmetic<F>
-//@fn ci ret r
-//@| requires data.len() < usize::MAX, conf_valid(confidence),
-//@| ensures data.len() < 2 ==> r is Err && r->Err_0 == CIError::TooFewSamples(data.len()),
-//@|         data.len() >= 2 ==> r is Ok,
-//@|         r is Ok ==> ci_by_kind(confidence, mean_ci_lo(confidence, sum_to(data@, data.len() as int), sumsq_to(data@, data.len() as int), data.len() as nat),
-//@|                                  mean_ci_hi(confidence, sum_to(data@, data.len() as int), sumsq_to(data@, data.len() as int), data.len() as nat), r->Ok_0),
-//@endimpl
-//@impl src/mean.rs impl<F: Float> core::ops::Add for Arithmetic<F>
-//@fn add
-//@endimpl
-impl AddSpecImpl for Arithmetic {
-    open spec fn obeys_add_spec() -> bool { true }
-    open spec fn add_req(self, rhs: Arithmetic) -> bool { self.wf() && rhs.wf() && self.n() + rhs.n() <= usize::MAX }
-    open spec fn add_spec(self, rhs: Arithmetic) -> Arithmetic { arith_merge(self, rhs) }
-}
-//@impl src/mean.rs impl<F: Float> core::ops::AddAssign for Arithmetic<F>
-//@fn add_assign
-//@endimpl
-impl AddAssignSpecImpl for Arithmetic {
-    open spec fn obeys_add_assign_spec() -> bool { true }
-    open spec fn add_assign_req(self, rhs: Arithmetic) -> bool { self.wf() && rhs.wf() && self.n() + rhs.n() <= usize::MAX }
-    open spec fn add_assign_spec(self, rhs: Arithmetic) -> Arithmetic { arith_merge(self, rhs) }
-}
-
-// ---------------- mean.rs: Harmonic (arithmetic statistics of the reciprocals)
-//@item src/mean.rs struct Harmonic derive=Clone,Copy
-impl Harmonic { pub closed spec fn inner(self) -> Arithmetic { self.recip_space } }
-//@impl src/mean.rs impl<F: Float> Default for Harmonic<F>
-//@fn default ret r
-//@| ensures r.inner().wf(), r.inner().s1() == 0real, r.inner().s2() == 0real, r.inner().n() == 0,
-//@endimpl
-//@impl src/mean.rs impl<F: Float> Harmonic<F>
-//@fn new ret r
-//@| ensures r.inner().wf(), r.inner().s1() == 0real, r.inner().s2() == 0real, r.inner().n() == 0,
-//@fn append ret r
-//@| requires old(self).inner().wf(), old(self).inner().n() < usize::MAX,
-//@| ensures x.v() <= 0real ==> r is Err && r->Err_0 == CIError::NonPositiveValue(x) && *final(self) == *old(self),
-//@|         x.v() > 0real ==> r is Ok && final(self).inner().wf()
-//@|             && final(self).inner().s1() == old(self).inner().s1() + recip(x.v())
-//@|             && final(self).inner().s2() == old(self).inner().s2() + rmul(recip(x.v()), recip(x.v()))
-//@|             && final(self).inner().n() == old(self).inner().n() + 1,
-//@fn sample_mean ret r
-//@| requires self.inner().wf(),
-//@| ensures r.v() == recip(mean_of(self.inner().s1(), self.inner().n())),
-//@fn sample_sem ret r
-//@| requires self.inner().wf(), self.inner().n() >= 1,
-//@| ensures r.v() == harmonic_sem(self.inner().s1(), self.inner().s2(), self.inner().n()),
-//@fn sample_count ret r
-//@| ensures r as nat == self.inner().n(),
-//@fn ci_mean ret r
-//@| requires self.inner().wf(), conf_valid(confidence),
-//@| ensures self.inner().n() < 2 ==> r is Err && r->Err_0 == CIError::TooFewSamples(self.inner().n() as usize),
-//@|         r is Ok ==> harmonic_ci(confidence, self.inner().s1(), self.inner().s2(), self.inner().n(), r->Ok_0),
-//@fn add ret r
-//@| requires self.inner().wf(), rhs.inner().wf(), self.inner().n() + rhs.inner().n() <= usize::MAX,
-//@| ensures r.inner() == arith_merge(self.inner(), rhs.inner()),
-//@endimpl
-
-//@impl src/mean.rs pub trait StatisticsOps<F: Float>: Default => impl Harmonic
-//@fn extend ret r vis pub
-//@| requires old(self).inner().wf(), old(self).inner().n() + data.len() < usize::MAX,
-//@| ensures all_positive_to(data@, data.len() as int) ==> r is Ok,
-//@|         r is Ok ==> all_positive_to(data@, data.len() as int) && final(self).inner().wf() && final(self).inner().n() == old(self).inner().n() + data.len()
-//@|             && final(self).inner().s1() == old(self).inner().s1() + sum_f_to(data@, data.len() as int, |x: real| recip(x))
-//@|             && final(self).inner().s2() == old(self).inner().s2() + sumsq_f_to(data@, data.len() as int, |x: real| recip(x)),
-//@|         r is Err ==> !all_positive_to(data@, data.len() as int) && r->Err_0 is NonPositiveValue,
-//@loop 0| invariant self.inner().wf(), self.inner().n() == old(self).inner().n() + it.index@, old(self).inner().n() + data.len() < usize::MAX,
-//@loop 0|     all_positive_to(data@, it.index@ as int),
-//@loop 0|     self.inner().s1() == old(self).inner().s1() + sum_f_to(data@, it.index@ as int, |x: real| recip(x)),
-//@loop 0|     self.inner().s2() == old(self).inner().s2() + sumsq_f_to(data@, it.index@ as int, |x: real| recip(x)),
-//@fn from_iter ret r vis pub
-//@| requires data.len() < usize::MAX,
-//@| ensures all_positive_to(data@, data.len() as int) ==> r is Ok,
-//@|         r is Ok ==> all_positive_to(data@, data.len() as int) && r->Ok_0.inner().wf() && r->Ok_0.inner().n() == data.len()
-//@|             && r->Ok_0.inner().s1() == sum_f_to(data@, data.len() as int, |x: real| recip(x))
-//@|             && r->Ok_0.inner().s2() == sumsq_f_to(data@, data.len() as int, |x: real| recip(x)),
-//@|         r is Err ==> r->Err_0 is NonPositiveValue,
-//@endimpl
-//@impl src/mean.rs impl<F: Float> Harmonic<F>
-//@fn ci ret r
-//@| requires data.len() < usize::MAX, conf_valid(confidence),
-//@| ensures r is Ok ==> harmonic_ci(confidence, sum_f_to(data@, data.len() as int, |x: real| recip(x)), sumsq_f_to(data@, data.len() as int, |x: real| recip(x)), data.len() as nat, r->Ok_0),
-//@|         !all_positive_to(data@, data.len() as int) ==> r is Err && r->Err_0 is NonPositiveValue,
-//@endimpl
-
-// ---------------- mean.rs: Geometric (arithmetic statistics of the logarithms)
-//@item src/mean.rs struct Geometric derive=Clone,Copy
-impl Geometric { pub closed spec fn inner(self) -> Arithmetic { self.log_space } }
-//@impl src/mean.rs impl<F: Float> Default for Geometric<F>
-//@fn default ret r
-//@| ensures r.inner().wf(), r.inner().s1() == 0real, r.inner().s2() == 0real, r.inner().n() == 0,
-//@endimpl
-//@impl src/mean.rs impl<F: Float> Geometric<F>
-//@fn new ret r
-//@| ensures r.inner().wf(), r.inner().s1() == 0real, r.inner().s2() == 0real, r.inner().n() == 0,
-//@fn append ret r
-//@| requires old(self).inner().wf(), old(self).inner().n() < usize::MAX,
-//@| ensures x.v() <= 0real ==> r is Err && r->Err_0 == CIError::NonPositiveValue(x) && *final(self) == *old(self),
-//@|         x.v() > 0real ==> r is Ok && final(self).inner().wf()
-//@|             && final(self).inner().s1() == old(self).inner().s1() + ln_spec(x.v())
-//@|             && final(self).inner().s2() == old(self).inner().s2() + rmul(ln_spec(x.v()), ln_spec(x.v()))
-//@|             && final(self).inner().n() == old(self).inner().n() + 1,
-//@fn sample_mean ret r
-//@| requires self.inner().wf(),
-//@| ensures r.v() == exp_spec(mean_of(self.inner().s1(), self.inner().n())),
-//@fn sample_sem ret r
-//@| requires self.inner().wf(), self.inner().n() >= 1,
-//@| ensures r.v() == geometric_sem(self.inner().s1(), self.inner().s2(), self.inner().n()),
-//@fn sample_count ret r
-//@| ensures r as nat == self.inner().n(),
-//@fn ci_mean ret r
-//@| requires self.inner().wf(), conf_valid(confidence),
-//@| ensures self.inner().n() < 2 ==> r is Err && r->Err_0 == CIError::TooFewSamples(self.inner().n() as usize),
-//@|         r is Ok ==> geometric_ci(confidence, self.inner().s1(), self.inner().s2(), self.inner().n(), r->Ok_0),
-//@fn add ret r
-//@| requires self.inner().wf(), rhs.inner().wf(), self.inner().n() + rhs.inner().n() <= usize::MAX,
-//@| ensures r.inner() == arith_merge(self.inner(), rhs.inner()),
-//@endimpl
-
-//@impl src/mean.rs pub trait StatisticsOps<F: Float>: Default => impl Geometric
-//@fn extend ret r vis pub
-//@| requires old(self).inner().wf(), old(self).inner().n() + data.len() < usize::MAX,
-//@| ensures all_positive_to(data@, data.len() as int) ==> r is Ok,
-//@|         r is Ok ==> all_positive_to(data@, data.len() as int) && final(self).inner().wf() && final(self).inner().n() == old(self).inner().n() + data.len()
-//@|             && final(self).inner().s1() == old(self).inner().s1() + sum_f_to(data@, data.len() as int, |x: real| ln_spec(x))
-//@|             && final(self).inner().s2() == old(self).inner().s2() + sumsq_f_to(data@, data.len() as int, |x: real| ln_spec(x)),
-//@|         r is Err ==> !all_positive_to(data@, data.len() as int) && r->Err_0 is NonPositiveValue,
-//@loop 0| invariant self.inner().wf(), self.inner().n() == old(self).inner().n() + it.index@, old(self).inner().n() + data.len() < usize::MAX,
-//@loop 0|     all_positive_to(data@, it.index@ as int),
-//@loop 0|     self.inner().s1() == old(self).inner().s1() + sum_f_to(data@, it.index@ as int, |x: real| ln_spec(x)),
-//@loop 0|     self.inner().s2() == old(self).inner().s2() + sumsq_f_to(data@, it.index@ as int, |x: real| ln_spec(x)),
-//@fn from_iter ret r vis pub
-//@| requires data.len() < usize::MAX,
-//@| ensures all_positive_to(data@, data.len() as int) ==> r is Ok,
-//@|         r is Ok ==> all_positive_to(data@, data.len() as int) && r->Ok_0.inner().wf() && r->Ok_0.inner().n() == data.len()
-//@|             && r->Ok_0.inner().s1() == sum_f_to(data@, data.len() as int, |x: real| ln_spec(x))
-//@|             && r->Ok_0.inner().s2() == sumsq_f_to(data@, data.len() as int, |x: real| ln_spec(x)),
-//@|         r is Err ==> r->Err_0 is NonPositiveValue,
-//@endimpl
-//@impl src/mean.rs impl<F: Float> Geometric<F>
-//@fn ci ret r
-//@| requires data.len() < usize::MAX, conf_valid(confidence),
-//@| ensures r is Ok ==> geometric_ci(confidence, sum_f_to(data@, data.len() as int, |x: real| ln_spec(x)), sumsq_f_to(data@, data.len() as int, |x: real| ln_spec(x)), data.len() as nat, r->Ok_0),
-//@|         !all_positive_to(data@, data.len() as int) ==> r is Err && r->Err_0 is NonPositiveValue,
-//@endimpl
+//@include prelude/means_code.rs
 
 proof fn canary_must_fail() ensures false {}
 } // mod code
